@@ -222,7 +222,7 @@ class _Orders:
         return self
 
 
-EXEC_LOOP = 'ExecutionHandler.__call__#for final_orders#0'
+EXEC_LOOP = 'ExecutionHandler.__call__#for _#0'
 
 
 @harness('ExecutionHandler.__call__', props=['C04', 'C08', 'C07'], layer='L3',
